@@ -10,3 +10,12 @@ pub fn run(_ctx: &Ctx) -> HResult<()> {
 pub fn replay(_ctx: &Ctx, _part: &str, _case: &Value) -> PResult {
 	Ok(())
 }
+
+pub fn part(_ctx: &Ctx, _part: &str, _seed: u64, _cases: u32) -> Option<(Value, Fail)> {
+	None
+}
+
+/// `gv child x C08 <args...>`
+pub fn child(_args: &[String]) -> i32 {
+	2
+}
